@@ -44,15 +44,6 @@ end Elvis.Ck
 namespace Elvis.Codec.Ipv4
 open Elvis.Ck Elvis.Codec Elvis.Rfc1071
 
-theorem hdr_eq_of_append {hdr rest : List UInt8} {b0 b1 b2 b3 b4 b5 b6 b7 b8 b9 b10 b11 b12 b13 b14
-    b15 b16 b17 b18 b19 : UInt8} {rest' : List UInt8} (hl : hdr.length = 20)
-    (h : hdr ++ rest = b0 :: b1 :: b2 :: b3 :: b4 :: b5 :: b6 :: b7 :: b8 :: b9 :: b10 :: b11 :: b12 ::
-      b13 :: b14 :: b15 :: b16 :: b17 :: b18 :: b19 :: rest') :
-    hdr = [b0, b1, b2, b3, b4, b5, b6, b7, b8, b9, b10, b11, b12, b13, b14, b15, b16, b17, b18, b19] := by
-  have : hdr ++ rest = [b0, b1, b2, b3, b4, b5, b6, b7, b8, b9, b10, b11, b12, b13, b14, b15, b16,
-      b17, b18, b19] ++ rest' := by simpa using h
-  exact (List.append_inj this (by simp [hl])).1
-
 /-- an accepted header verifies under RFC 1071 -/
 theorem c18_accepted_verifies_ipv4 {hdr rest : List UInt8} {h : Header} (hl : hdr.length = 20)
     (ha : fromBytes true (hdr ++ rest) = .ok h) : verifies (wordsOf hdr) := by
